@@ -143,6 +143,51 @@ func itemName(r *rand.Rand, mode int) []byte {
 	}
 }
 
+func hasLetter(b []byte) bool {
+	for _, c := range b {
+		if c >= 'a' && c <= 'z' || c >= 'A' && c <= 'Z' {
+			return true
+		}
+	}
+	return false
+}
+
+// nameFamily draws three distinct, related item names: 0 unrelated, 1 the same word in three letter cases, 2 a word,
+// the word plus one byte, the word minus its last byte (prefixes), 3 a word followed by different Mac-Roman high bytes
+// (no valid UTF-8: all "the same" to a decoder that replaces them), 4 names equal under Unicode simple case folding
+// (k / K / Kelvin sign), 5 differing only in surrounding or inner blanks.
+func nameFamily(r *rand.Rand, mode int) [][]byte {
+	for {
+		var out [][]byte
+		w := word(r, 2, 10)
+		switch r.Intn(6) {
+		case 0:
+			out = [][]byte{itemName(r, mode), itemName(r, mode), itemName(r, mode)}
+		case 1:
+			for !hasLetter(w) {
+				w = word(r, 2, 10)
+			}
+			lo, up := bytes.ToLower(w), bytes.ToUpper(w)
+			ti := append([]byte{up[0]}, lo[1:]...)
+			out = [][]byte{ti, lo, up}
+			if bytes.Equal(ti, lo) || bytes.Equal(ti, up) {
+				out[0] = append(append([]byte{lo[0]}, up[1:len(up)-1]...), lo[len(lo)-1])
+			}
+		case 2:
+			out = [][]byte{w, append(append([]byte(nil), w...), letters[r.Intn(len(letters))]), w[:len(w)-1]}
+		case 3:
+			out = [][]byte{append(append([]byte(nil), w...), 0x8a), append(append([]byte(nil), w...), 0x80), append(append([]byte(nil), w...), 0xe9)}
+		case 4:
+			out = [][]byte{append(append([]byte(nil), w...), 'k'), append(append([]byte(nil), w...), 'K'), append(append([]byte(nil), w...), 0xe2, 0x84, 0xaa)}
+		default:
+			out = [][]byte{w, append(append([]byte(nil), w...), ' '), append([]byte{' '}, w...)}
+		}
+		if len(out[0]) > 0 && len(out[1]) > 0 && len(out[2]) > 0 && !bytes.Equal(out[0], out[1]) && !bytes.Equal(out[0], out[2]) && !bytes.Equal(out[1], out[2]) {
+			return out
+		}
+	}
+}
+
 // decorate rewrites the data of a script in place.  idx selects the flavour so that every flavour occurs in every
 // batch: 0 untouched, 1 long titles and user names (article-list entries longer than 512 bytes), 2 palette texts,
 // 3 line-structured texts, 4 big bodies, 5 everything mixed.
@@ -164,6 +209,13 @@ func decorate(s *script, r *rand.Rand, idx int) {
 	}
 	names := map[string][]byte{}
 	used := map[string]bool{}
+	// the three names of the TLC scripts ("Cat", "cat", "Ca") become a family of related names: an implementation
+	// that compares names loosely (case folding, prefixes, byte classes) confuses exactly such siblings
+	for i, v := range nameFamily(r, mode) {
+		k := []string{"Cat", "cat", "Ca"}[i]
+		names[k] = v
+		used[string(v)] = true
+	}
 	rename := func(n []byte) []byte {
 		k := string(n)
 		if v, ok := names[k]; ok {
